@@ -6,6 +6,7 @@ cd "$(dirname "$0")"
 mkdir -p .build evidence replays
 export CARGO_NET_OFFLINE=true
 (cd /repo && RUSTFLAGS="--cfg masscanned_verif" cargo build --offline --target-dir /verif/.build/cargo) >/dev/null 2>.build/cargo.log || { tail -30 .build/cargo.log; exit 1; }
+cc -shared -fPIC -O2 -o .build/timeshim.so harness/timeshim.c -ldl
 python3 harness/regen.py
 (cd lean && lake build Masscanned mdriver $(ls Masscanned/Thm/*.lean | sed "s#/#.#g; s#\.lean##")) > .build/lake.log 2>&1 || { tail -40 .build/lake.log; exit 1; }
 echo setup ok
